@@ -1620,6 +1620,8 @@ pub struct FileWriter<W> {
     record_blocks: Vec<crate::Block>,
     /// Whether the writer footer has been written, and the writer is finished
     finished: bool,
+    /// Whether writing to the underlying writer failed, leaving the output incomplete
+    failed: bool,
     /// Keeps track of dictionaries that have been written
     dictionary_tracker: DictionaryTracker,
     /// User level customized metadata
@@ -1688,6 +1690,7 @@ impl<W: Write> FileWriter<W> {
             dictionary_blocks: vec![],
             record_blocks: vec![],
             finished: false,
+            failed: false,
             dictionary_tracker,
             custom_metadata: Default::default(),
             data_gen,
@@ -1707,14 +1710,18 @@ impl<W: Write> FileWriter<W> {
                 "Cannot write record batch to file writer as it is closed".to_string(),
             ));
         }
+        self.check_not_failed()?;
 
-        let meta = self.data_gen.write(
-            batch,
-            &mut self.dictionary_tracker,
-            &self.write_options,
-            &mut self.ipc_write_context,
-            &mut self.writer,
-        )?;
+        let meta = self
+            .data_gen
+            .write(
+                batch,
+                &mut self.dictionary_tracker,
+                &self.write_options,
+                &mut self.ipc_write_context,
+                &mut self.writer,
+            )
+            .inspect_err(|e| self.failed = matches!(e, ArrowError::IoError(_, _)))?;
 
         for (header_len, body_len) in meta.dictionary_block_sizes {
             let block = crate::Block::new(
@@ -1744,6 +1751,9 @@ impl<W: Write> FileWriter<W> {
                 "Cannot write footer to file writer as it is closed".to_string(),
             ));
         }
+        self.check_not_failed()?;
+        // the file is incomplete until the footer has been written in full
+        self.failed = true;
 
         // write EOS
         {
@@ -1780,8 +1790,20 @@ impl<W: Write> FileWriter<W> {
             .write_all(&(footer_data.len() as i32).to_le_bytes())?;
         self.writer.write_all(&super::ARROW_MAGIC)?;
         self.writer.flush()?;
+        self.failed = false;
         self.finished = true;
 
+        Ok(())
+    }
+
+    /// Returns an error if an earlier write failed: the bytes already handed to the
+    /// underlying writer end part way through a message, so nothing valid can follow them
+    fn check_not_failed(&self) -> Result<(), ArrowError> {
+        if self.failed {
+            return Err(ArrowError::IpcError(
+                "Cannot write to file writer as an earlier write failed".to_string(),
+            ));
+        }
         Ok(())
     }
 
@@ -2034,6 +2056,8 @@ pub struct StreamWriter<W> {
     write_options: IpcWriteOptions,
     /// Whether the writer footer has been written, and the writer is finished
     finished: bool,
+    /// Whether writing to the underlying writer failed, leaving the output incomplete
+    failed: bool,
     /// Keeps track of dictionaries that have been written
     dictionary_tracker: DictionaryTracker,
 
@@ -2090,6 +2114,7 @@ impl<W: Write> StreamWriter<W> {
             writer,
             write_options,
             finished: false,
+            failed: false,
             dictionary_tracker,
             data_gen,
             ipc_write_context: IpcWriteContext::default(),
@@ -2103,14 +2128,17 @@ impl<W: Write> StreamWriter<W> {
                 "Cannot write record batch to stream writer as it is closed".to_string(),
             ));
         }
+        self.check_not_failed()?;
 
-        self.data_gen.write(
-            batch,
-            &mut self.dictionary_tracker,
-            &self.write_options,
-            &mut self.ipc_write_context,
-            &mut self.writer,
-        )?;
+        self.data_gen
+            .write(
+                batch,
+                &mut self.dictionary_tracker,
+                &self.write_options,
+                &mut self.ipc_write_context,
+                &mut self.writer,
+            )
+            .inspect_err(|e| self.failed = matches!(e, ArrowError::IoError(_, _)))?;
         Ok(())
     }
 
@@ -2121,14 +2149,29 @@ impl<W: Write> StreamWriter<W> {
                 "Cannot write footer to stream writer as it is closed".to_string(),
             ));
         }
+        self.check_not_failed()?;
+        // the stream is incomplete until the end-of-stream marker has been written in full
+        self.failed = true;
 
         {
             self.writer.write_eos(&self.write_options)?;
         }
         self.writer.flush()?;
 
+        self.failed = false;
         self.finished = true;
 
+        Ok(())
+    }
+
+    /// Returns an error if an earlier write failed: the bytes already handed to the
+    /// underlying writer end part way through a message, so nothing valid can follow them
+    fn check_not_failed(&self) -> Result<(), ArrowError> {
+        if self.failed {
+            return Err(ArrowError::IpcError(
+                "Cannot write to stream writer as an earlier write failed".to_string(),
+            ));
+        }
         Ok(())
     }
 
